@@ -933,7 +933,7 @@ func (p *_Loader) ParseDir(pkgpath string) (filenames []string, files []*ast.Fil
 		case token.LangType_Wz:
 			f, err = w2parser.ParseFile(nil, p.prog.Fset, filename, datas[i], w2parser.AllErrors|w2parser.ParseComments)
 		default:
-			panic("unreachable")
+			err = fmt.Errorf("%s: unknown source language", filename)
 		}
 		if err != nil {
 			logger.Tracef(&config.EnableTrace_loader, "filename: %v", filename)
